@@ -1805,3 +1805,18 @@ Proof.
   - rewrite H. ring.
   - tauto.
 Qed.
+
+(* ------------------------------------------------------------------ *)
+(* two refusals of pad: whichever is raised, the object is untouched *)
+Lemma pad_other_refusal_spec s e0 e1 sm md e' : pad_other_refusal s e0 e1 sm md = Some e' ->
+  exists e, pad s e0 e1 sm md = (s, Some e) /\ e <> e' /\ (e' = ValueError \/ e' = IndexError).
+Proof.
+  unfold pad_other_refusal, pad_counts, pad, count_refusal.
+  destruct md as [a b|]; [|destruct (value s) as [|y0 vt]; [discriminate|]];
+    (destruct (match sm with Some d => Ok d | None => min_diff (wave s) end) as [dw|]; [|discriminate]);
+    (destruct (wave s) as [|w0 wt]; [discriminate|]);
+    set (nl := (Qceiling ((w0 - e0) / dw) + 1)%Z); set (nr := (Qceiling ((e1 - last (w0 :: wt) w0) / dw) + 1)%Z);
+    destruct (nl <? 0)%Z eqn:L1; [| destruct (nl =? 0)%Z eqn:L2; [|discriminate] | | destruct (nl =? 0)%Z eqn:L2; [|discriminate]];
+    (destruct (nr <? 0)%Z eqn:R1; [| destruct (nr =? 0)%Z eqn:R2; [|discriminate]]); simpl; intros H; inversion H; subst;
+    eexists; (split; [reflexivity | split; [discriminate | auto]]).
+Qed.
